@@ -378,6 +378,11 @@ pub fn offsets(tr: &mut Tr, rng: &mut SmallRng, codes: &[CodeSpec], per_code: us
         for _ in 0..per_code {
             vals.push(all[rng.random_range(0..all.len())]);
         }
+        // and one value from the edges of the domain (codewords of 64+ bits at every alignment)
+        let ev: Vec<u64> = edge_values(c).into_iter().filter(|x| unary_part(c, *x) <= 100).collect();
+        if !ev.is_empty() {
+            vals.push(ev[ev.len() - 1 - rng.random_range(0..ev.len().min(6))]);
+        }
         for le in [false, true] {
             let cands: Vec<&RCfg> = rcfgs.iter().filter(|r| r.le == le).collect();
             let rcfg = cands[rng.random_range(0..cands.len())];
@@ -433,7 +438,13 @@ pub fn offsets(tr: &mut Tr, rng: &mut SmallRng, codes: &[CodeSpec], per_code: us
                 }
                 let mut rd = TRd::new(tr, rcfg, &img);
                 let opts = read_opts(c, rcfg);
-                for (gi, (start, o)) in groups.iter().enumerate() {
+                // groups are visited from the last to the first and then from the first to the last, so that
+                // every seek (also the word-aligned ones, also the one followed at once by the code) happens
+                // on a reader that still holds bits of the previous group
+                let order: Vec<usize> = (0..groups.len()).rev().chain(0..groups.len()).collect();
+                for (vi, gi) in order.into_iter().enumerate() {
+                    let (start, o) = &groups[gi];
+                    let gi = gi + vi;
                     if rd.dead {
                         break;
                     }
@@ -453,7 +464,8 @@ pub fn offsets(tr: &mut Tr, rng: &mut SmallRng, codes: &[CodeSpec], per_code: us
                     }
                     rd.read_code(tr, c, opts[gi % opts.len()]);
                     if !rd.dead {
-                        rd.read_bits(tr, 63);
+                        // only part of the tail: the reader keeps unread (mostly non-zero) bits when the next seek comes
+                        rd.read_bits(tr, 23);
                     }
                     st.tests += 1;
                     st.distinct.insert((c.f, c.k, c.b, v));
